@@ -933,6 +933,16 @@ func (l *Lin) submatchLen(x ssa.Value) (int, bool) {
 	return 1 + re.MaxCap(), true
 }
 
+// ScanPattern returns the parsed constant pattern of the write-once regular expression whose FindAllStringSubmatch
+// produced x, or nil.
+func (l *Lin) ScanPattern(x ssa.Value) *syntax.Regexp {
+	l.lastPattern = nil
+	if _, ok := l.submatchLen(x); !ok {
+		return nil
+	}
+	return l.lastPattern
+}
+
 // digitsOnlyGroup reports whether string value v is element k of a match produced by FindAllStringSubmatch of a
 // write-once regular expression whose capture group k can only match decimal digits (or stay unmatched, i.e. "").
 func (l *Lin) digitsOnlyGroup(v ssa.Value) bool {
